@@ -199,7 +199,7 @@ theorem gen_deadline_attached :
 /-- **C03 (recovery after connection-level hangs)**: with an unbounded pool, whatever connection
 hangs came before, every request issued while the upstream is healthy is answered. -/
 theorem recovery_unbounded_pool (hung : Nat) (hs : List Bool) :
-    ∀ i : Nat, hs[i]? = some true → ((Pool.run ⟨none, hung⟩ hs).1)[i]? = some true := by
+    ∀ i : Nat, hs[i]? = some true → ((ConnPool.run ⟨none, hung⟩ hs).1)[i]? = some true := by
   induction hs generalizing hung with
   | nil => intro i h; simp at h
   | cons h hs ih =>
@@ -207,28 +207,28 @@ theorem recovery_unbounded_pool (hung : Nat) (hs : List Bool) :
     cases h with
     | true =>
       cases i with
-      | zero => simp [Pool.run, Pool.request, Pool.canDial]
+      | zero => simp [ConnPool.run, ConnPool.request, ConnPool.canDial]
       | succ k =>
         simp only [List.getElem?_cons_succ] at hi
-        simpa [Pool.run, Pool.request, Pool.canDial] using ih hung k hi
+        simpa [ConnPool.run, ConnPool.request, ConnPool.canDial] using ih hung k hi
     | false =>
       cases i with
       | zero => simp at hi
       | succ k =>
         simp only [List.getElem?_cons_succ] at hi
-        simpa [Pool.run, Pool.request, Pool.canDial] using ih (hung + 1) k hi
+        simpa [ConnPool.run, ConnPool.request, ConnPool.canDial] using ih (hung + 1) k hi
 
 /-- why the bound matters: with one connection per host and no handshake timeout, a single hung
 dial makes every later request fail although the upstream is healthy again -/
 theorem bounded_pool_wedges :
-    (Pool.run ⟨some 1, 0⟩ [false, true, true, true]).1 = [false, false, false, false] := by decide
+    (ConnPool.run ⟨some 1, 0⟩ [false, true, true, true]).1 = [false, false, false, false] := by decide
 
 /-- tie to the source (regenerated from resolver/endpoint/transport_h2.go): the DoH transport sets
 no per-host connection limit, so `recovery_unbounded_pool` is the applicable statement (there is
 no handshake timeout either: a limit would turn one hung dial into a permanent outage). -/
 theorem gen_pool_unbounded : Gen.Upstream.doh_conn_limits = [] := by decide
 
-example : (Pool.run ⟨none, 0⟩ [false, true, false, true]).1 = [false, true, false, true] := by decide
+example : (ConnPool.run ⟨none, 0⟩ [false, true, false, true]).1 = [false, true, false, true] := by decide
 
 /-- non-vacuity: an arrival sequence with a stale answer of a previous query, a runt and then the
 answer; and one where the answer comes too late. -/
